@@ -421,6 +421,19 @@ func main() {
 				all = append(all, mkCall(m))
 			}
 			addSeq("every_method", sv, sv, all)
+			// every declared exception of every method (own and inherited) once: (method, exception) pairs
+			var exs []*callIn
+			for _, m := range ms {
+				for _, t := range m.Fn.Throws {
+					c := mkCall(m)
+					c.Out = outcome{K: "throw", T: t.Type.Name, V: uncollide(p, &schemagen.Type{Kind: "struct", Name: t.Type.Name},
+						g.Struct(p.Struct(t.Type.Name), rr.Range(0, 2)))}
+					exs = append(exs, c)
+				}
+			}
+			if len(exs) > 0 {
+				addSeq("every_exception", sv, sv, exs)
+			}
 			n := nSeq
 			if u.Key[:2] != "o0" {
 				n = (nSeq + 2) / 3
